@@ -51,7 +51,7 @@ def cases(tier, seed):
         for prod, style in [("had", "cpt"), ("had", "cp"), ("had", "plain"), ("had", "sumsum"), ("kro", "cpt"), ("kro", "sumsum")]:
             for kin, ksum in units:
                 for nary in (["dense", "mixing"] if (not isinstance(tree, int) and tree[0] == "M") else ["dense"]):
-                    for outputs in ["single", "two", "feeds", "inner"]:
+                    for outputs in ["single", "two", "feeds", "inner", "sub"]:
                         for numbering in numberings:
                             for inp in ["cat-logits", "emb"]:
                                 if not thorough:
@@ -60,7 +60,7 @@ def cases(tier, seed):
                                     if numbering != "id" and outputs != "single" and h not in (0, 1):
                                         continue
                                 for vk in (["generic", "monotone"] if thorough else ["generic"]):
-                                    kout = 1 if outputs != "inner" else ksum
+                                    kout = 1 if outputs not in ("inner", "sub") else ksum
                                     c = emit(dict(tree=tree, prod=prod, style=style, kin=kin, ksum=ksum, kout=kout, nary=nary,
                                                   outputs=outputs, numbering=numbering, inp=inp, vk=vk))
                                     if c:
@@ -218,7 +218,7 @@ def cfg_sig(cfg, case):
 
 def finalize(agg):
     issues = []
-    for d, wanted in {"prod": ["had", "kro"], "outputs": ["single", "two", "feeds", "inner"]}.items():
+    for d, wanted in {"prod": ["had", "kro"], "outputs": ["single", "two", "feeds", "inner", "sub"]}.items():
         for w in wanted:
             if not agg["dims"].get(d, {}).get(w):
                 issues.append(f"dimension {d} never took value {w}")
